@@ -179,8 +179,27 @@ def run_vars(tape, env, viol, history, want_c10=False):
                      f"model {want!r}", fmt=f, byteorder=f[0] if len(f) > 1 else "")
                 return
     check("after load (defaults)")
+    second = [None]
     for step in range(3 + tape.draw("c09/nops", 20)):
         op = tape.draw("c09/op", 3)
+        if op == 2 and second[0] is None and tape.chance("c09/second-instance", 30):
+            # a second instance of the same program class, loaded while the first is in use
+            # and given other values: each instance has its own maps
+            try:
+                p2 = P()
+                p2.load()
+                for n, f, d in decl:
+                    setattr(p2, n, draw_in_range(tape, f, "c09/val2"))
+                kernel.run_xdp(kernel.obj(p2.file_descriptor), bytearray(64))
+            except Exception as e:
+                viol("program-cannot-be-generated", f"second instance: {type(e).__name__}: {e}",
+                     exception=type(e).__name__, part="vars")
+                return decl
+            second[0] = p2
+            env.world.count("c09/second-instance-of-the-class")
+            history.append(("second_instance",))
+            check(f"after op {step} {history[-1]}")
+            continue
         if op == 0:
             n, f, d = tape.pick("c09/wvar", decl)
             v = draw_in_range(tape, f, "c09/val")
@@ -225,13 +244,18 @@ def run_vars(tape, env, viol, history, want_c10=False):
     return decl
 
 
-def run_dict(tape, env, viol, history):
+def run_dict(tape, env, viol, history, want_c10=False):
     from ebpfcat.arraymap import ArrayMap
     from ebpfcat.bpf import UpdateFlags
     from ebpfcat.ebpf import Member, Structure
     from ebpfcat.hashmap import Dict
     from ebpfcat.xdp import XDP, XDPExitCode
     kernel = env.kernel
+    if want_c10 and tape.chance("fault/kernel-without-lookup-and-delete", 25):
+        # a kernel older than 5.14: BPF_MAP_LOOKUP_AND_DELETE_ELEM on a hash map is EINVAL;
+        # whatever the library does about it, its buffers have to be large enough
+        kernel.refused_commands = {21}
+        env.world.count("fault/old-kernel")
 
     def gen_struct(name, label):
         fmts = sorted([tape.pick(f"{label}/fmt", FMTS) for _ in range(1 + tape.draw(f"{label}/n", 5))],
@@ -316,6 +340,7 @@ def run_dict(tape, env, viol, history):
     def kbytes(vals):
         return struct.pack("<" + "".join(kf), *vals)
 
+    held = [None]
     for step in range(4 + tape.draw("c09/nops", 24)):
         key = tape.pick("c09/key", keypool)
         op = tape.draw("c09/dop", 9)
@@ -339,6 +364,7 @@ def run_dict(tape, env, viol, history):
             history.append(("py_set", ok))
         elif op == 1:      # Python lookup: table[key], table.get(key), key in table
             how = tape.draw("c09/lookup-how", 3)
+            got = None
             try:
                 if how == 2:
                     present = mk(Key, key) in p.table
@@ -355,6 +381,16 @@ def run_dict(tape, env, viol, history):
             if vals != model.get(key):
                 viol("python-lookup-differs", f"{where}: key {key}: Python sees {vals}, model "
                      f"{model.get(key)}", side="python")
+            # a value fetched earlier keeps what it showed when it was fetched, whatever
+            # is fetched afterwards
+            if held[0] is not None:
+                hobj, hvals, hwhere = held[0]
+                now = tuple(getattr(hobj, f"m{i}") for i in range(len(vf)))
+                if now != hvals:
+                    viol("python-lookup-differs", f"{where}: the value fetched at {hwhere} "
+                         f"showed {hvals}, after this fetch it shows {now}", side="python",
+                         held=True)
+            held[0] = (got, vals, where) if got is not None and vals is not None else None
             history.append(("py_get", vals is not None))
         elif op == 2:      # Python delete / pop
             use_pop = tape.chance("c09/pop", 50)
@@ -370,6 +406,11 @@ def run_dict(tape, env, viol, history):
                 existed = True
             except KeyError:
                 existed = False
+            except OSError:
+                if not getattr(kernel, "refused_commands", None):
+                    raise
+                history.append(("py_pop_refused",))      # old kernel: nothing was deleted
+                continue
             if existed != (key in model):
                 viol("python-delete-differs", f"{where}: key {key} existed={existed}, model "
                      f"{key in model}")
@@ -413,7 +454,10 @@ def run_dict(tape, env, viol, history):
                 try:
                     keys = set()
                     items = tape.chance("c09/iterate-items", 40)
-                    for n_seen, k in enumerate(p.table.items() if items else p.table):
+                    source = p.table.items() if items else p.table
+                    if items and tape.chance("c09/items-as-list", 50):
+                        source = list(source)[:4 * size + 10]     # all fetched, then looked at
+                    for n_seen, k in enumerate(source):
                         if n_seen > 4 * size + 8:
                             raise RuntimeError("iteration over the Dict does not end")
                         if items:
@@ -491,8 +535,19 @@ def run(tape, scenario, want_c10=False):
     viol.any = lambda: bool(violations)
     history = []
     with env:
-        desc = (run_vars(tape, env, viol, history, want_c10) if scenario == "vars"
-                else run_dict(tape, env, viol, history))
+        try:
+            desc = (run_vars(tape, env, viol, history, want_c10) if scenario == "vars"
+                    else run_dict(tape, env, viol, history, want_c10))
+        except Exception as e:
+            # the library raised where the workload does not expect it (the harness' own
+            # slips would show on the unchanged tree): judged as a failed operation
+            import traceback
+            tb = traceback.extract_tb(e.__traceback__)
+            where = next((f"{fr.filename.rsplit('/', 1)[-1]}:{fr.lineno}" for fr in reversed(tb)
+                          if "/ebpfcat/" in fr.filename), "harness")
+            viol("python-operation-raised", f"{type(e).__name__}: {e} (at {where}); history "
+                 f"{history[-3:]}", exception=type(e).__name__)
+            desc = None
         overruns = [{"rule": "buffer-overrun", "params": {"role": bv["role"], "cmd": bv["cmd"],
                                                           "map": bv["map"].split()[0].strip("<")},
                      "detail": f"{bv}"} for bv in monitor.violations[:1]]
